@@ -279,9 +279,9 @@ CHECKS = {
              "to one normal form. Theorems (Props/C13.v): time ranges = half-open arc on the circle of "
              "one day (wrap, equal endpoints = whole day), date ranges = closed arc on the 366-day "
              "circle, date-time ranges never wrap; normal form is full-length, range-checked, idempotent "
-             "and sorted for every input; read-back of rendered endpoints (all 86 400 whole seconds and "
-             "366 dates by finite sweep, fraction digits in general, all month-name prefixes x 3 "
-             "spellings). Tie: as_list(), as_string(), membership of probe moments and rejection of "
+             "and sorted for every input; read-back of rendered endpoints (every valid time of day incl. "
+             "microseconds, 366 dates, all month-name prefixes x 3 spellings; finite sweeps lifted to "
+             "universal statements). Tie: as_list(), as_string(), membership of probe moments and rejection of "
              "every generated notation / sequence / malformed mutant must equal the model's; the monitor "
              "compares the normal forms of all notations of one interval, both round trips and the "
              "membership rule on the linear scales.",
